@@ -116,7 +116,7 @@ PacketVecs(p) == LET vs == SetToSeq(ValuesOf(p)) IN
 
 (* enum ordinals outside the defined range, in every packet with an enum field *)
 BadOrdinals(e) == OutsideOrdinals(e) \cup (IF Long THEN {127, 128, 255, 256, MaxI, MinI} \ Ordinals(e) ELSE {})
-RejectVecs(p) == LET es == SetToSeq({<<i, o>> \in (DOMAIN p.fields) \X (((-1)..8) \cup {127, 128, 255, 256, MaxI, MinI}) :
+RejectVecs(p) == LET es == SetToSeq({<<i, o>> \in (DOMAIN p.fields) \X (((-9)..9) \cup {127, 128, 255, 256, MaxI, MinI}) :
                                         p.fields[i].t = "enum" /\ o \in BadOrdinals(p.fields[i].e)})
                  IN [j \in DOMAIN es |-> LET f == p.fields[es[j][1]] IN
                        Vec("reject", p, [base |-> BaseVal(p), field |-> f.n, ordinal |-> es[j][2]], {f.n},
